@@ -70,7 +70,12 @@ func (r *Reader) readMdat(b *box) (err error) {
 }
 
 func (r *Reader) newExifBox(b *box) (inner box, err error) {
-	if _, err = b.Discard(int(r.heic.exif.ol.offset) - b.offset - 16); err != nil {
+	skip := int(r.heic.exif.ol.offset) - b.offset - 16
+	if skip < 0 {
+		// the Exif item does not lie inside this box
+		return inner, ErrRemainLengthInsufficient
+	}
+	if _, err = b.Discard(skip); err != nil {
 		return
 	}
 	buf, err := b.Peek(16)
